@@ -513,7 +513,18 @@ func (w *World) NextBlock(emptyPct int) *BlockResult {
 			if !r.Alive {
 				continue
 			}
-			if err := r.AddBlock(b); err != nil {
+			// every node generates the empty block of the round itself; what is agreed on is its hash
+			blk := b
+			if r != src {
+				r.enter()
+				own := r.Chain.GenerateEmptyBlock()
+				if own.Hash() != b.Hash() {
+					res.Errs[r.Name] = fmt.Errorf("AddBlock: the empty block this node generates for height %d has another hash than the one generated by %s", b.Height(), src.Name)
+					continue
+				}
+				blk = wireBlock(b)
+			}
+			if err := r.AddBlock(blk); err != nil {
 				res.Errs[r.Name] = err
 			}
 		}
@@ -535,7 +546,7 @@ func (w *World) NextBlock(emptyPct int) *BlockResult {
 			if !r.Alive || r == p {
 				continue
 			}
-			if err := r.Receive(prop); err != nil {
+			if err := r.Receive(wireProposal(prop)); err != nil {
 				res.Errs[r.Name] = err
 			}
 		}
@@ -571,7 +582,7 @@ func (w *World) NextBlockBy(p *Replica) *BlockResult {
 		if !r.Alive || r == p {
 			continue
 		}
-		if err := r.Receive(prop); err != nil {
+		if err := r.Receive(wireProposal(prop)); err != nil {
 			res.Errs[r.Name] = err
 		}
 	}
@@ -659,4 +670,30 @@ func (w *World) Cleanup() {
 			os.RemoveAll(e.Name())
 		}
 	}
+}
+
+// wireProposal is what another node holds after the proposal travelled over the network: a
+// fresh object decoded from the proposer's encoding (no memoised hashes, no shared pointers).
+func wireProposal(p *types.BlockProposal) *types.BlockProposal {
+	data, err := p.ToBytes()
+	if err != nil {
+		panic(fmt.Sprintf("verifsim: proposal does not encode: %v", err))
+	}
+	c := new(types.BlockProposal)
+	if err := c.FromBytes(data); err != nil {
+		panic(fmt.Sprintf("verifsim: proposal does not decode from its own encoding: %v", err))
+	}
+	return c
+}
+
+func wireBlock(b *types.Block) *types.Block {
+	data, err := b.ToBytes()
+	if err != nil {
+		panic(fmt.Sprintf("verifsim: block does not encode: %v", err))
+	}
+	c := new(types.Block)
+	if err := c.FromBytes(data); err != nil {
+		panic(fmt.Sprintf("verifsim: block does not decode from its own encoding: %v", err))
+	}
+	return c
 }
